@@ -66,6 +66,14 @@ CATALOGUE = [
     ("result-type", "ival", "{ if ({B_d}) { return 1 } else { return {S} } }"), ("result-type", "ival", "{ let v = {I}; }"),
     ("result-type", "ival", "{ switch ({I_d}) { case 1: return 1; } }"), ("result-type", "slist", "[{I}, {I}]"), ("result-type", "ival", "a"),
     ("result-type", "roval", "{I}"), ("result-type", "width", "{I}"),
+    # null belongs to pointers, [] to lists: they have no common type with the other kind
+    ("operand-types", "bval", "{P_d} != []"), ("operand-types", "bval", "{L_d} == null"), ("operand-types", "peer", "{B_d} ? a : []"),
+    ("operand-types", "slist", '{B_d} ? ["a"] : null'), ("operand-types", "bval", "[a, []].isEmpty()"), ("operand-types", "bval", '[["a"], null].isEmpty()'),
+    ("result-type", "slist", '{ if ({B_d}) return null; return ["x"]; }'), ("result-type", "peer", "{ if ({B_d}) return []; return a; }"),
+    ("result-type", "peer", "[]"), ("result-type", "slist", "null"),
+    # object upcast only: a class with a second, unresolvable base is still not convertible to unrelated classes
+    ("result-type", "peer", "plot1"), ("assignment", "ival", "{ a.peer = plot1; 1 }"), ("assignment", "ival", "{ let v: VfWidget = plot1; 1 }"),
+    ("arguments", "ival", "{ a.takeMode(plot1); 1 }"), ("operand-types", "bval", "plot1 == a"), ("assignment", "ival", "{ let v: VfOther = plot1; 1 }"),
 ]
 
 # well-typed controls built from the same vocabulary (must be accepted)
@@ -79,6 +87,9 @@ CONTROLS = [
     ("ival", "a.twice({I}) + a.sum({I_d}, 2)"), ("ival", "{ a.ival2 = {I}; a.peer = sub1; a.doIt(); 1 }"), ("ival", "~{I_d} ^ {I} % 3"),
     ("ival", "{ console.log({I}, {S}, {D}); 1 }"), ("mode", "{B_d} ? VfWidget.ModeB : {M_d}"), ("ival", "a.cval + a.peer.peer2.ival"),
     ("dval", "-{D_d} / 2.0"), ("bval", "{S} < {S_d}"), ("bval", "!{B_d} != ({I_d} >= {I})"), ("ival", "{I_d} === 3 ? 1 : 2"),
+    # upcast of a class with an additional unresolvable base to its resolvable base; null / [] with their own kind
+    ("wpeer", "plot1"), ("ival", "{ a.takeW(plot1); a.wpeer = plot1; plot1.level }"), ("bval", "{P_d} != null"),
+    ("peer", "{B_d} ? a : null"), ("slist", '{B_d} ? ["a"] : []'),
 ]
 
 
@@ -93,7 +104,7 @@ def expand(tmpl, variant):
 
 
 def wrap(prop, prog):
-    return ("import qmluic.QtWidgets\nQWidget {\n VfWidget { id: a }\n VfWidget { id: b }\n VfSub { id: sub1 }\n VfOther { id: other1 }\n"
+    return ("import qmluic.QtWidgets\nQWidget {\n VfWidget { id: a }\n VfWidget { id: b }\n VfSub { id: sub1 }\n VfOther { id: other1 }\n VfPlot { id: plot1 }\n"
             " VfWidget {\n  id: t0\n  %s: %s\n }\n}\n" % (prop, prog))
 
 
